@@ -350,10 +350,10 @@ fn c15_wide(n: usize) -> impl Fn(&mut Rng, &mut Vec<String>) + Sync {
             };
             Some((d.to_string(), d.cls(), d.to_int("i64"), d.to_int("u8"), d.to_f("f64"), d.to_f("f32")))
         }
-        let fixed: &str = if n == 2 { "b64" } else { "b128" };
+        let fixed: &str = if n == 2 { "b64" } else if n == 4 { "b128" } else { "dyn" };
         let ok = catch_unwind(AssertUnwindSafe(|| {
-            let a = if n == 2 { view::<Bitstring64>(&le) } else { view::<Bitstring128>(&le) };
             let b = view::<Bitstring>(&le);
+            let a = if n == 2 { view::<Bitstring64>(&le) } else if n == 4 { view::<Bitstring128>(&le) } else { b.clone() };
             #[cfg(feature = "big")]
             let c = view::<BigBitstring>(&le);
             #[cfg(not(feature = "big"))]
@@ -493,6 +493,8 @@ pub fn run(p: &Plan) {
             let m = if t { 100_000_000 } else { 2_000_000 };
             rnd("same 8 bytes in Bitstring64/Bitstring/BigBitstring agree", m, &c15_wide(2));
             rnd("same 16 bytes in Bitstring128/Bitstring/BigBitstring agree", m, &c15_wide(4));
+            rnd("same 12 bytes in Bitstring/BigBitstring agree", m, &c15_wide(3));
+            rnd("same 20 bytes in Bitstring/BigBitstring agree", m, &c15_wide(5));
         }
         "C11" => {
             go("Bitstring32: the ten integer targets are consistent with one exact value", if t { 1 } else { 101 }, &c11_one);
